@@ -557,7 +557,10 @@ class PE:
             else:
                 args.append(self.expr(a, env, func, depth))
         kw = {k.arg: self.expr(k.value, env, func, depth) for k in e.keywords if k.arg is not None}
-        self.calls.append((name or norm(e.func), args, kw, e))
+        ctext = name
+        if ctext is None and isinstance(e.func, ast.Attribute):
+            ctext = '%s.%s' % (self.loc_text(e.func.value, env, func, depth) if isinstance(e.func.value, (ast.Name, ast.Attribute, ast.Subscript)) else norm(e.func.value), e.func.attr)
+        self.calls.append((ctext or norm(e.func), args, kw, e))
         if self.call_hook is not None:
             r = self.call_hook(self, name, e, args, kw, env, func, depth)
             if r is not NotImplemented:
